@@ -13,6 +13,7 @@ import (
 	"go.minekube.com/gate/pkg/edition/java/proto/packet/tablist/legacytablist"
 	"go.minekube.com/gate/pkg/edition/java/proto/packet/tablist/playerinfo"
 	"go.minekube.com/gate/pkg/edition/java/proto/version"
+	"go.minekube.com/gate/pkg/edition/java/proxy/player"
 	"go.minekube.com/gate/pkg/edition/java/proxy/tablist"
 	"go.minekube.com/gate/pkg/gate/proto"
 	"go.minekube.com/gate/pkg/util/uuid"
@@ -397,7 +398,13 @@ func (t *TabList) processUpdateForEntry(actions []playerinfo.UpsertAction, info 
 	}
 	if playerinfo.ContainsAction(actions, playerinfo.InitializeChatAction) {
 		doInternalEntity(currentEntry, func(e internalEntry) {
-			e.SetChatSessionInternal(info.RemoteChatSession)
+			// keep "no chat session" a nil interface, not a typed nil pointer:
+			// callers test ChatSession() != nil before using it
+			var session player.ChatSession
+			if info.RemoteChatSession != nil {
+				session = info.RemoteChatSession
+			}
+			e.SetChatSessionInternal(session)
 		})
 	}
 	if playerinfo.ContainsAction(actions, playerinfo.UpdateListedAction) {
